@@ -19,3 +19,26 @@ for k, b in sorted(p.lib_bodies.items()):
 json.dump({"_comment": "fn key -> parameter names by position on the pinned tree (canonical names used by the rules)", "fns": out},
           open(os.path.join(os.path.dirname(os.path.dirname(os.path.abspath(__file__))), "spec", "param_names.json"), "w"), indent=0)
 print(len(out), "functions")
+
+# captured variables of closures / async blocks: what each one holds, by source path
+from pv import flow  # noqa: E402
+p._upvar_spec = {}
+ups = {}
+for k, b in sorted(p.lib_bodies.items()):
+    if b.kind not in ("Fn", "AssocFn") and b.parent:
+        src = flow.upvar_sources(p, b)
+        m = {}
+        dup = set()
+        for n, sp in src.items():
+            if sp is None:
+                continue
+            if sp in m:
+                dup.add(sp)
+            m[sp] = n
+        for d_ in dup:
+            m.pop(d_, None)
+        if m:
+            ups[k] = m
+json.dump({"_comment": "closure key -> {source path of the captured value: captured-variable name on the pinned tree}", "closures": ups},
+          open(os.path.join(os.path.dirname(os.path.dirname(os.path.abspath(__file__))), "spec", "upvar_names.json"), "w"), indent=0)
+print(len(ups), "closures with captured variables")
